@@ -1,3 +1,4 @@
+import F3.Proofs.SkelTieCerts
 import F3.Proofs.NodeGen2
 import F3.Model.Certs
 import F3.Model.CertsParse
@@ -437,4 +438,20 @@ example : F3.Gen.Certs2.validateCertChecks true false 3 true true true false tru
     F3.Gen.Certs2.validateCertChecks false false 4 false false false false false 4 false = 0 := by decide
 
 end Regenerated2
+end F3.Props.C04
+
+namespace F3.Props.C04
+section Skeletons
+
+/-- **The Go functions this property's models mirror still have the statement structure the models were written
+against**: each regenerated skeleton (pre-order list of statement kinds, `tools/go2lean/skel.go`) equals the pinned
+expectation of `F3/Proofs/SkelTie*.lean`. An added early return, cap, loop or dropped branch in one of these functions
+breaks this obligation even when no regenerated *expression* changes. -/
+theorem code_structure_as_modelled :
+    F3.Gen.SkelCerts.skelValidateCerts = F3.SkelTie.SkelCerts.skelValidateCertsExpected ∧
+    F3.Gen.SkelCerts.skelApplyDiffs = F3.SkelTie.SkelCerts.skelApplyDiffsExpected ∧
+    F3.Gen.SkelCerts.skelDeltaIsZero = F3.SkelTie.SkelCerts.skelDeltaIsZeroExpected :=
+  ⟨F3.SkelTie.SkelCerts.skelValidateCerts_expected, F3.SkelTie.SkelCerts.skelApplyDiffs_expected, F3.SkelTie.SkelCerts.skelDeltaIsZero_expected⟩
+
+end Skeletons
 end F3.Props.C04
